@@ -133,6 +133,11 @@ def check_vc(pc, goal, tier="quick", want_model=True, extra=(), hints=None, loca
     smaller = len(sp) < len(pc)
     parts = core.split_goal(goal)
     short = dict(hints)
+    # 0. the whole (sliced) VC through the z3 API for a moment: many VCs are immediate for z3
+    r = _check_vc(sp, goal, tier, want_model, extra, {"api_only_ms": 300})
+    if r["status"] == "unsat":
+        r["time"] = time.time() - t0
+        return r
     if local is not None and len(local) < len(pc):
         quick_h = dict(hints)
         quick_h["cli_s"] = min(hints.get("cli_s", 6), 5)
@@ -204,20 +209,25 @@ def _check_vc(pc, goal, tier="quick", want_model=True, extra=(), hints=None):
         s.add(t)
     strings = _uses_strings(allt)
     text = None
+    if hints.get("api_only_ms"):
+        r0 = safe_check(s, hints["api_only_ms"])
+        st_ = "unsat" if r0 == z3.unsat else "unknown"      # a quick `sat` is re-examined later
+        return {"status": st_, "backend": "z3-api-%s" % z3.get_version_string(), "time": time.time() - t0}
     if strings:
+        # 0. the z3 API for a moment (mixed integer/string VCs are often immediate for z3)
+        r0 = safe_check(s, 250)
+        if r0 == z3.unsat:
+            return {"status": "unsat", "backend": "z3-api-%s" % z3.get_version_string(), "time": time.time() - t0}
+        # 1. cvc5 briefly (it decides most word-equation VCs in milliseconds)
         try:
             text = "(set-logic ALL)\n" + s.to_smt2()
-            res = _cli(text, b["cli_s"], only=("cvc5-cli",))
-            if res["status"] == "unsat" or hints.get("only") == "cvc5":
+            res = _cli(text, min(b["cli_s"], 3), only=("cvc5-cli",))
+            if res["status"] == "unsat" or (hints.get("only") == "cvc5" and b["cli_s"] <= 3):
                 res["time"] = time.time() - t0
                 return res
         except Exception:
-            pass
-    if strings and text is not None:
-        # z3's sequence solver does not honour its time-out reliably: only through the CLI, under a hard limit
-        res = _cli(text, b["cli_s"], skip=("cvc5-cli",), want_model=True)
-        res["time"] = time.time() - t0
-        return res
+            text = None
+    # 2. the z3 API (under the watchdog)
     r = safe_check(s, b["api_ms"])
     dt = time.time() - t0
     if r == z3.unsat:
@@ -225,12 +235,17 @@ def _check_vc(pc, goal, tier="quick", want_model=True, extra=(), hints=None):
     if r == z3.sat:
         return {"status": "sat", "backend": "z3-api-%s" % z3.get_version_string(), "time": dt,
                 "model": s.model() if want_model else None}
-    # unknown: try the CLIs on the SMT-LIB text
+    # 3. the CLIs on the SMT-LIB text (cvc5 again with the full budget when it only had the short one)
     try:
         text = text or ("(set-logic ALL)\n" + s.to_smt2())
     except Exception:
         return {"status": "unknown", "backend": "z3-api", "time": dt, "reason": s.reason_unknown()}
-    res = _cli(text, b["cli_s"], skip=("cvc5-cli",) if strings else ())
+    if strings and b["cli_s"] > 3:
+        res = _cli(text, b["cli_s"], only=("cvc5-cli",))
+        if res["status"] == "unsat":
+            res["time"] = time.time() - t0
+            return res
+    res = _cli(text, b["cli_s"], skip=("cvc5-cli",) if strings else (), want_model=strings)
     res["time"] = time.time() - t0
     if res["status"] == "unknown":
         res["reason"] = s.reason_unknown()
